@@ -868,6 +868,12 @@ def _install_frames():
             return lift_frame(real)
         raise Undecided("pd.DataFrame(...) outside the frame model")
 
+    @lib.handler(pd.DataFrame.from_dict.__func__)
+    def h_from_dict(it, cls_, data, orient="columns", **kw):
+        if orient != "columns":
+            raise Undecided("DataFrame.from_dict orient")
+        return h_dataframe(it, data)
+
     @lib.handler(pd.concat)
     def h_concat(it, objs, ignore_index=False, **kw):
         frames = [lift_frame(f) for f in it.iterate(objs)]
